@@ -50,7 +50,7 @@ EXPLANATION = ("Theorems: the arithmetic and combinatorial lemmas of the Droop p
                "quota; a simultaneous step cannot elect more candidates than seats remain). The monitor checks the full "
                "statement on the implementation for all S.")
 
-N_QUICK, N_THOROUGH = 1500, 18000
+N_QUICK, N_THOROUGH = 1500, 54000
 
 
 def cases(rng, tier, shard, nshards, phase):
